@@ -219,6 +219,11 @@ impl Rep {
         *self.per_op.entry(op).or_insert(0) += 1;
     }
     #[inline]
+    /// n individual oracle comparisons performed outside `chk!` (e.g. by worker threads)
+    pub fn tick_evals(&mut self, op: &'static str, n: u64) {
+        self.evals += n;
+        *self.per_op.entry(op).or_insert(0) += n;
+    }
     /// bulk item comparisons (e.g. whole-sequence iterator equality): recorded per operation but
     /// deliberately NOT added to the evaluation count, which counts individual oracle comparisons
     pub fn tick_n(&mut self, op: &'static str, n: u64) {
